@@ -70,6 +70,13 @@ uint64_t cmb_random_sfc64(void)
  */
 static CMB_THREAD_LOCAL uint64_t splitmix_state = DUMMY_SEED;
 
+/*
+ * Cached random bits for cmb_random_flip. Part of the generator state, hence
+ * discarded whenever the generator is (re)seeded.
+ */
+static CMB_THREAD_LOCAL uint64_t flip_bits = 0u;
+static CMB_THREAD_LOCAL uint8_t flip_bitpos = 0u;
+
 static void splitmix_initialize(const uint64_t seed)
 {
     splitmix_state = seed;
@@ -103,6 +110,9 @@ void cmb_random_initialize(const uint64_t seed)
     for (int i = 0; i < 20; i++) {
         (void)cmb_random_sfc64();
     }
+
+    /* Forget any bits cached from the previous stream */
+    flip_bitpos = 0u;
 }
 
 /*
@@ -116,6 +126,7 @@ void cmb_random_terminate(void) {
     prng_state.d = DUMMY_SEED;
 
     splitmix_state = DUMMY_SEED;
+    flip_bitpos = 0u;
 }
 
 /*
@@ -522,15 +533,12 @@ double cmb_random_PERT_mod(const double min,
 /* Simple flip of a fair unbiased coin, caching bits for efficiency */
 int cmb_random_flip(void)
 {
-    static CMB_THREAD_LOCAL uint64_t bits;
-    static CMB_THREAD_LOCAL uint8_t bitpos = 0;
-
-    if (bitpos == 0) {
-        bits = cmb_random_sfc64();
-        bitpos = 64;
+    if (flip_bitpos == 0u) {
+        flip_bits = cmb_random_sfc64();
+        flip_bitpos = 64u;
     }
 
-    return ((bits >> --bitpos) & 1) ? 1 : 0;
+    return ((flip_bits >> --flip_bitpos) & 1) ? 1 : 0;
 }
 
 /*
